@@ -271,6 +271,9 @@ pub fn prepare(c: &Cfg, names: &[&str], tag: &str) -> Prepared {
 
 /// The C04 oracle on one completed run. Returns (kind, message, offending path).
 pub fn c04_oracle(c: &Cfg, p: &Prepared, out: &CliOut) -> Option<(String, String, String)> {
+    if out.code.is_none() && out.stderr.contains("TIMEOUT: the command did not finish") {
+        return Some(("hang".into(), "the command neither completed nor failed: it was still running after 90 s and had to be killed".into(), String::new()));
+    }
     let ex: Vec<String> = if c.exclude.is_empty() { vec![] } else { vec![c.exclude.to_string()] };
     let (wt, ws, wd) = ref_plan(&meta_of(&p.src0.0), &meta_of(&p.dst0.0), &ex, c.delete);
     let src1 = snap(&p.env.src());
@@ -520,7 +523,8 @@ pub fn run_c04(ctx: &Ctx) -> ! {
     // delivered exactly its plan, a run that reports failure must have touched nothing outside it
     let mut fault_runs = 0u64;
     if std::env::var("VH_NO_IOFAULT").is_err() {
-        let errnos: &[i32] = if thorough { &[28, 5, 27] } else { &[28] };
+        // (-1 = the chosen write-like call is SHORT — half the bytes — instead of failing: nothing may go wrong at all)
+        let errnos: &[i32] = if thorough { &[28, 5, 27, -1] } else { &[28, -1] };
         // second pass: read-side calls (stat, opendir, open for reading, read) fail too (EACCES / EIO)
         let mut jobs: Vec<(&'static str, i32, bool)> = ["local", "pull", "push"].iter().flat_map(|d| errnos.iter().map(move |e| (*d, *e, false))).collect();
         for d in ["local", "pull", "push"] {
